@@ -94,7 +94,7 @@ def check_timer_protocol(ctx, fx, cfg, RULE="R10.1"):
     ctx.floor(RULE, "timer coroutines (%s)" % cfg, len(tcs), 2)  # at least one periodic and one one-shot body (APIs may share bodies)
     A = nfa.Alphabet(
         calls=[("sleep", nfa.trait_method(timers.T_SPAWNF, "sleep")), ("submit", is_submit), ("is_err", nfa.callee_ends("::is_err")), ("is_ok", nfa.callee_ends("::is_ok"))],
-        adts={"core::result::Result": "Res"}, bools={"is_err", "is_ok"}, fut_types=[("core::pin::Pin<&mut F>", "userfut")])
+        adts={"core::result::Result": "Res", "core::ops::control_flow::ControlFlow": "Res"}, bools={"is_err", "is_ok"}, fut_types=[("core::pin::Pin<&mut F>", "userfut")])
     A.bool_srcs = True
     seen = set()
     for f in tcs:
@@ -248,6 +248,6 @@ def check_cfg(ctx, fx, cfg):
         if co and "suspensions" in co:
             bad = [a["ty"] for _c, _p, a in own.keepalive_atoms(co["upvar_atoms"])]
             for s in co["suspensions"]:
-                if any("SpawnFutures::sleep" in co["saved"][i] for i in s["live"]):
-                    bad += [a["ty"] for _c, _p, a in own.keepalive_atoms(s["atoms"])]
+                if timers.is_sleeping_suspension(fx, co, s):  # (also: parked in a private helper that sleeps)
+                    bad += [a["ty"] for _c, _p, a in timers.held_while_sleeping(fx, s)]
         ctx.require(co is not None and not bad, "R10.3", "weak-while-sleeping:%s@%s" % ((f.get("parent") or "").split("::")[-1], cfg), "a timer holds a strong handle while it sleeps: %s" % bad[:2], fn=f["def"], site=f["loc"])
